@@ -299,27 +299,34 @@ func tripleKey(t Triple) string {
 // triples are paired off first on (variable, value) with the reported key compared loosely
 // (as written, case-folded, or in its /regex/ form), because the key a count reports is not pinned.
 func matchTriples(exp, got []Triple, asSet bool) bool {
-	rest := append([]Triple{}, got...)
-	var plain []Triple
+	var counts, plain []Triple
 	for _, e := range exp {
-		if !e.Count {
+		if e.Count {
+			counts = append(counts, e)
+		} else {
 			plain = append(plain, e)
-			continue
 		}
-		found := -1
+	}
+	// a count may be paired with any observed triple of the same variable and value whose key is the count's key
+	// in some spelling; an ordinary argument can look exactly like that, so every pairing is tried
+	var try func(k int, rest []Triple) bool
+	try = func(k int, rest []Triple) bool {
+		if k == len(counts) {
+			a, b := canonTriples(plain, asSet), canonTriples(rest, asSet)
+			return strings.Join(a, "\x01") == strings.Join(b, "\x01")
+		}
+		e := counts[k]
 		for i, g := range rest {
 			if g.Var == e.Var && g.Val == e.Val && (strings.EqualFold(g.Key, e.Key) || strings.EqualFold(g.Key, "/"+e.Key+"/")) {
-				found = i
-				break
+				next := append(append([]Triple{}, rest[:i]...), rest[i+1:]...)
+				if try(k+1, next) {
+					return true
+				}
 			}
 		}
-		if found < 0 {
-			return false
-		}
-		rest = append(rest[:found], rest[found+1:]...)
+		return false
 	}
-	a, b := canonTriples(plain, asSet), canonTriples(rest, asSet)
-	return strings.Join(a, "\x01") == strings.Join(b, "\x01")
+	return try(0, append([]Triple{}, got...))
 }
 
 func canonTriples(ts []Triple, asSet bool) []string {
